@@ -203,7 +203,7 @@ exprassign(struct expr *e, struct type *t)
 			error(&tok.loc, "assignment to bool must be from arithmetic, pointer, or nullptr_t type");
 		break;
 	case TYPEPOINTER:
-		if (nullpointer(e))
+		if (nullpointer(e) || et->kind == TYPENULLPTR)
 			break;
 		if (et->kind != TYPEPOINTER)
 			error(&tok.loc, "assignment to pointer must be from pointer or null pointer constant");
@@ -213,7 +213,7 @@ exprassign(struct expr *e, struct type *t)
 			error(&tok.loc, "assignment to pointer discards qualifiers");
 		break;
 	case TYPENULLPTR:
-		if (!nullpointer(e))
+		if (!nullpointer(e) && et->kind != TYPENULLPTR)
 			error(&tok.loc, "assignment to nullptr_t must be from null pointer constant or expression with type nullptr_t");
 		break;
 	case TYPESTRUCT:
